@@ -92,10 +92,13 @@ class Result:
 
 
 _WORK = None
+TASK_INIT = []      # callables run before every task: tasks must not depend on what ran before them
 
 
 def _call(task):
     try:
+        for f in TASK_INIT:
+            f()
         return ('ok', _WORK(task))
     except BaseException:  # noqa - report, never hang the pool
         return ('err', traceback.format_exc())
@@ -139,6 +142,11 @@ def run_tasks(work, tasks, jobs=None, chunksize=1, selftest=True, progress=None)
                       f'(harness can not be believed)', file=sys.stderr)
                 if st != 'ok':
                     print(res, file=sys.stderr)
+                if total.viol:
+                    # violations were observed on the real code and each has a replay file that
+                    # re-executes it without the explorer: report them rather than hide them
+                    total.count('selftest_mismatch')
+                    return total
                 raise SystemExit(2)
         total.count('selftest_tasks_replayed', len({0, len(tasks) // 2, len(tasks) - 1}))
     return total
@@ -168,8 +176,9 @@ def rotate(seq, seed):
 def finish(prop, tier, seed, total, coverage, assumptions, t0, level='model_checking'):
     """Write evidence, replay files; print KNOWN-FINDING / VIOLATION lines; return exit code."""
     known = {f['signature']: f for f in load_findings() if f.get('property') == prop}
-    os.makedirs(os.path.join(VERIF, 'evidence'), exist_ok=True)
-    os.makedirs(os.path.join(VERIF, 'replays'), exist_ok=True)
+    out = os.environ.get('VERIF_OUT') or VERIF     # development runs against scratch copies write elsewhere
+    os.makedirs(os.path.join(out, 'evidence'), exist_ok=True)
+    os.makedirs(os.path.join(out, 'replays'), exist_ok=True)
     nviol = 0
     known_hits = {}
     lines = []
@@ -182,7 +191,7 @@ def finish(prop, tier, seed, total, coverage, assumptions, t0, level='model_chec
             continue
         nviol += 1
         rid = h(prop + sig)
-        path = os.path.join(VERIF, 'replays', f'{prop}-{rid}.json')
+        path = os.path.join(out, 'replays', f'{prop}-{rid}.json')
         with open(path, 'w') as f:
             json.dump({'property': prop, 'signature': sig, 'what': what, 'cases_in_run': cnt,
                        'witness': wits[0] if wits else None, 'more_witnesses': wits[1:]},
@@ -206,7 +215,7 @@ def finish(prop, tier, seed, total, coverage, assumptions, t0, level='model_chec
         'wall_s': round(time.time() - t0, 2),
         'violations': nviol,
     }
-    with open(os.path.join(VERIF, 'evidence', f'{prop}.json'), 'w') as f:
+    with open(os.path.join(out, 'evidence', f'{prop}.json'), 'w') as f:
         json.dump(ev, f, indent=1, default=str, ensure_ascii=True)
     for path, sig, what, cnt in lines:
         print(f'VIOLATION property={prop} replay={path}')
